@@ -280,8 +280,10 @@ def run_case(idx, rng, tier, res):
     stress = idx % 5 == 4
     g = make_set(rng, tier, stress)
     texts = g.texts((lambda: Layout(rng, 'noisy')) if rng.random() < 0.2 else None)
-    c = compiled.Compiled(g, texts)
-    replay = {'texts': texts, 'profile': 'stress' if stress else 'clean'}
+    gt = rng.random() < 0.3
+    c = compiled.Compiled(g, texts, load_texts=gt, genTexts=gt)
+    res.cell('genTexts:%s' % gt)
+    replay = {'texts': texts, 'profile': 'stress' if stress else 'clean', 'genTexts': gt}
     for b, n, st, err in c.status_problems():
         dk = sorted(set(d.defval.kind for m in g.modules if m.name == n for d in m.decls
                         if getattr(d, 'defval', None) is not None))
